@@ -200,4 +200,63 @@ theorem TieShape.del_add (b : String) (v : Scalar) : TieShape [Mod.mkDel b, Mod.
   · subst hq; exact Or.inr (Or.inr ⟨v, by simp [Mod.mkDel, Mod.mkAdd]⟩)
   · exact Or.inl (by simp [Mod.mkDel, Mod.mkAdd, hq])
 
+/-! ## flatten: one Add per path -/
+
+theorem flatList_under_idx : ∀ (xs : List Node) (b : String) (i : Nat) (m : Mod), (∀ x ∈ xs, x.SafeKeys) →
+    m ∈ flatList xs b i → ∃ j, i ≤ j ∧ Under (toListPath b j) m.path
+  | [], _, _, _, _, h => by simp [flatList] at h
+  | x :: xs, b, i, m, hs, h => by
+    simp only [flatList, List.mem_append] at h
+    rcases h with h | h
+    · exact ⟨i, Nat.le_refl _, flatNode_under x _ m (hs x (List.mem_cons_self ..)) (toListPath_ne_empty b i) h⟩
+    · obtain ⟨j, hj, hu⟩ := flatList_under_idx xs b (i + 1) m (fun y hy => hs y (List.mem_cons_of_mem _ hy)) h
+      exact ⟨j, by omega, hu⟩
+
+theorem flatList_path_ne {xs : List Node} {b : String} {i : Nat} {m : Mod} (hs : ∀ x ∈ xs, x.SafeKeys)
+    (h : m ∈ flatList xs b i) : m.path ≠ b := by
+  obtain ⟨j, _, u⟩ := flatList_under_idx xs b i m hs h
+  exact ne_of_under_toListPath u
+
+theorem flatKvs_path_ne {kvs : List (String × Node)} {b : String} {m : Mod} (hs : SafeKeysKvs kvs) (hb : b ≠ "")
+    (h : m ∈ flatKvs kvs b) : m.path ≠ b := by
+  obtain ⟨k, u⟩ := flatKvs_under kvs b m hs h
+  exact ne_of_under_toPath hb u
+
+mutual
+theorem flatNode_uniq : ∀ (n : Node) (b : String), Good n → b ≠ "" → Uniq (flatNode n b)
+  | .leaf v, b, _, _ => by
+    simp only [flatNode]; exact Uniq.of_length_le (Nat.le_refl _)
+  | .list xs, b, hg, _ => by
+    simp only [flatNode]; exact flatList_uniq xs b 0 (fun x hx => hg.of_list_mem hx)
+  | .cont kvs, b, hg, hb => by
+    simp only [flatNode]
+    rw [flatKvs_eq_flatMap]
+    exact Uniq.flatMap
+      (fun q => blocks_pairwise hg b q _ (fun e he m hm =>
+        flatNode_under e.2 _ m (hg.of_cont_mem he).1.2 (toPath_ne_empty (hg.of_cont_mem he).2.1.1) hm))
+      (flatKvs_uniq kvs b (fun e he => hg.of_cont_mem he))
+theorem flatList_uniq : ∀ (xs : List Node) (b : String) (i : Nat), (∀ x ∈ xs, Good x) → Uniq (flatList xs b i)
+  | [], _, _, _ => by simp only [flatList]; exact Uniq.of_length_le (Nat.zero_le _)
+  | x :: xs, b, i, hg => by
+    simp only [flatList]
+    refine Uniq.append (flatNode_uniq x _ (hg x (List.mem_cons_self ..)) (toListPath_ne_empty b i))
+      (flatList_uniq xs b (i + 1) (fun y hy => hg y (List.mem_cons_of_mem _ hy))) (filter_disj ?_)
+    intro a ha c hc e
+    have u1 := flatNode_under x _ a (hg x (List.mem_cons_self ..)).2 (toListPath_ne_empty b i) ha
+    obtain ⟨j, hj, u2⟩ := flatList_under_idx xs b (i + 1) c
+      (fun y hy => (hg y (List.mem_cons_of_mem _ hy)).2) hc
+    rw [e] at u1
+    have := idx_eq_of_under u1 u2
+    omega
+theorem flatKvs_uniq : ∀ (xs : List (String × Node)) (b : String),
+    (∀ e ∈ xs, Good e.2 ∧ SafeKey e.1 ∧ hasIdxSuffix e.1 = false) →
+    ∀ e ∈ xs, Uniq (flatNode e.2 (toPath b e.1))
+  | [], _, _, e, he => by cases he
+  | (k, x) :: xs, b, hg, e, he => by
+    rcases List.mem_cons.mp he with rfl | he
+    · have h0 : Good x ∧ SafeKey k ∧ hasIdxSuffix k = false := hg (k, x) (List.mem_cons_self ..)
+      exact flatNode_uniq x _ h0.1 (toPath_ne_empty h0.2.1.1)
+    · exact flatKvs_uniq xs b (fun y hy => hg y (List.mem_cons_of_mem _ hy)) e he
+end
+
 end Ytk
